@@ -23,12 +23,17 @@ func settingsStream(cfg *Config) *hx.Stats {
 	for _, k := range hx.SortedKeys(consts) {
 		w.L("CONST %s=%d", k, consts[k])
 	}
+	// (not in VerifConsts(): the exported getter; cross-checked against the regenerated constant like the others)
+	w.L("CONST maxStorableSizeInStorableSlab=%d", atree.MaxStorableSizeInStorableSlab())
+	bounds := newSettingsBounds(st, w, cfg.Seed, consts) // settingsbounds.go: model-free oracle (C05)
 	for T := uint32(256); T <= 32768; T++ {
-		atree.VerifSetThreshold(T)
+		r0, r1, r2, r3 := atree.VerifSetThreshold(T)
 		target, minT, maxT, arr, mapElem, mapKey := atree.VerifThresholds()
 		w.L("SET T=%d min=%d max=%d arr=%d mapelem=%d mapkey=%d mapval9=%d", target, minT, maxT, arr, mapElem, mapKey, atree.VerifMaxInlineMapValueSize(9))
+		bounds.check(T, r0, r1, r2, r3)
 		st.Ops++
 	}
+	bounds.finish()
 	atree.VerifSetThreshold(1024)
 	st.Programs = 1
 	st.Distinct = int(st.Ops)
